@@ -1,5 +1,6 @@
 import Model.KVExec
 import Proofs.C15
+import Gen.C15
 
 /-!
 # C15 — Reference execution layer: the state root depends only on the executed transactions
@@ -274,5 +275,41 @@ example :
     (initChain (run [.exec [txX1]])).2 = .ok [47, 120, 58, 49, 59] ∧
     (initChain (run [.exec [txX1], .init, .exec [[121, 61, 50]], .final 3, .reopen])).2 = .ok [47, 120, 58, 49, 59] ∧
     root (run [.exec [txX1], .init, .exec [[121, 61, 50]], .final 3, .reopen]).store ≠ [47, 120, 58, 49, 59] := by decide
+
+/-! ## 6. golden facts: the model's answers on a fixed call sequence equal what the compiled executor
+answers now (`Gen.C15`, regenerated from /repo on every run by `harness/streams/c15/facts.go`, which
+holds the same inputs as strings) -/
+
+/-- `" a/./b/../a\t=  7  "`, `"b=2"`, `"\u3000finalizedHeight/ = x=y"`, `"/=r"`, `"b=3"` -/
+def gBlock1 : List Bytes := [[32, 97, 47, 46, 47, 98, 47, 46, 46, 47, 97, 9, 61, 32, 32, 55, 32, 32], [98, 61, 50], [227, 128, 128, 102, 105, 110, 97, 108, 105, 122, 101, 100, 72, 101, 105, 103, 104, 116, 47, 32, 61, 32, 120, 61, 121], [47, 61, 114], [98, 61, 51]]
+/-- `"c=1"`, `"genesis/../genesis//stateroot=1"` (rejected: reserved key) -/
+def gBlock2 : List Bytes := [[99, 61, 49], [103, 101, 110, 101, 115, 105, 115, 47, 46, 46, 47, 103, 101, 110, 101, 115, 105, 115, 47, 47, 115, 116, 97, 116, 101, 114, 111, 111, 116, 61, 49]]
+/-- `"novalue"`, `" \t=v"`, `"genesis/./initialized = 1"` -/
+def gBad : List Bytes := [[110, 111, 118, 97, 108, 117, 101], [32, 9, 61, 118], [103, 101, 110, 101, 115, 105, 115, 47, 46, 47, 105, 110, 105, 116, 105, 97, 108, 105, 122, 101, 100, 32, 61, 32, 49]]
+/-- `"//a/./a/"` -/
+def gGetKey : Bytes := [47, 47, 97, 47, 46, 47, 97, 47]
+
+def errCode : Res → Nat
+  | .ok _ => 0
+  | .err .malformed => 1
+  | .err .emptyKey => 2
+  | .err .reserved => 3
+  | .err _ => 9
+
+theorem golden_root_block1 : (executeTxs {} gBlock1).2 = .ok Gen.C15.rootAfterBlock1 := by decide
+theorem golden_genesis_root : (initChain (run [.exec gBlock1])).2 = .ok Gen.C15.genesisRoot := by decide
+theorem golden_rejected_block :
+    errCode (executeTxs (run [.exec gBlock1, .init]) gBlock2).2 = Gen.C15.block2Error ∧
+    root (run [.exec gBlock1, .init, .exec gBlock2]).store = Gen.C15.rootAfterRejectedBlock2 := by decide
+theorem golden_root_after_final :
+    root (run [.exec gBlock1, .init, .exec gBlock2, .final 1203]).store = Gen.C15.rootAfterFinal1203 := by decide
+theorem golden_final_zero : (if (setFinal {} 0).2.isSome then 1 else 0) = Gen.C15.finalZeroRejected := by decide
+theorem golden_genesis_root_again :
+    (initChain (run [.exec gBlock1, .init, .exec gBlock2, .final 1203, .final 0])).2 = .ok Gen.C15.genesisRootAgain := by decide
+theorem golden_bad_txs :
+    gBad.map (fun tx => errCode (executeTxs {} [tx]).2) = [Gen.C15.badTxError1, Gen.C15.badTxError2, Gen.C15.badTxError3] := by decide
+theorem golden_get : getStoreValue (run [.exec gBlock1]) gGetKey = some Gen.C15.valueOfAA := by decide
+theorem golden_constants :
+    mempoolCap = Gen.C15.mempoolCapacity ∧ gasConst = Gen.C15.gasExecute ∧ gasConst = Gen.C15.gasInit := by decide
 
 end Spec.C15
